@@ -13,15 +13,25 @@ def _c12_case(c):
 
 CONFIG = {
     "properties_file": "Properties/C12.v",
-    "proof_files": ["Base/Prelude.v", "Proofs/TarRoundTrip.v"],
-    "model_files": ["Model/TarRoundTrip.v"],
+    "proof_files": ["Base/Prelude.v", "Proofs/TarRoundTrip.v", "Proofs/TarWalkOrder.v"],
+    "model_files": ["Generated/GC12.v", "Model/TarRoundTrip.v", "Model/FileAnnotations.v"],
     "extract": "XC12.v",
     "ml_main": "c12_main.ml",
     "harness": "c12",
     "case_to_replay": _c12_case,
-    "assumptions": [],
-    "level_text": "",
-    "level_note": "",
-    "technique": "machine-checked proof in Coq + model/implementation correspondence",
-    "explanation": "",
+    "timeout_quick": 600,
+    "timeout_thorough": 3000,
+    "assumptions": [
+        "archive/tar and compress/gzip byte encodings are Section variables enc/dec/gz/gunz with the hypotheses dec (enc es) = Some es and gunz (gz s) = Some s; the digest is a Section variable H with a decidable equality (no collision-freeness is needed by the theorems; the reproducibility theorem concludes equality of entry lists, hence of bytes and digests)",
+        "paths are lists of components; filepath.Join/Clean/Rel/ToSlash on the clean relative names that tarDirectory produces = list append / strip_prefix / lexnorm (hand-modelled; compared with the implementation on every generated tree, including '.', '..', '//' and trailing-slash link targets)",
+        "filepath.Walk = pre-order with byte-wise sorted children (sort_tree); os.MkdirAll/OpenFile/Symlink/Chmod/umask = mkdir_all/fs_set/create_mode/chmod_mode on a path->node map (kernel semantics modelled, root user, Linux: open honours 07777, mkdir 01777, chmod via os.FileMode(header.Mode) only 0777)",
+        "hypotheses of the round-trip theorems: distinct names per directory, modes within 0777, symlink targets relative, lexically inside the directory and not passing through another symlink of the tree (benign_tree); absolute targets and out-and-back-in targets are outside the model (XAbsLink = unjudged); extraction escapes F10/F11 belong to C11",
+        "the mode of a top-level plain file is not carried by a blob descriptor at all (no tar): for plain files the theorems and the oracle speak of bytes only",
+        "which of several same-content layers oras.Copy pushes is scheduling: the theorem quantifies over every pushed subset/order; in the correspondence the recorded sequence of successful named pushes is the model's input",
+        "hard links, devices, fifos, xattrs, times of restored files, sizes above ~2.5 MiB and the remote (registry) intermediate store are not exercised",
+    ],
+    "level_text": "Coq theorems for all directory trees (any nesting, names, contents, child order, umask, both PreservePermissions settings): extractTarDirectory applied to the entry list written by tarDirectory never fails and yields exactly the source tree as a path->node map (same paths, bytes, link targets, modes minus umask or exact), proved by tree induction with a frame invariant; invariance under filepath.Walk's sorting; descriptor digest/size/recorded tar digest and their verification on unpack; reproducible tars depend only on the tree without timestamps; after any subset/order of layer pushes covering every content, the manifest push materialises every name (restoreDuplicates), not under ForceCAS; two refuted full-strength statements kept as theorems with witnesses (directory's own mode without PreservePermissions; IgnoreNoName drops duplicates). Tied to content/file by a differential run Add -> PackManifest -> Copy -> memory/OCI layout -> Copy -> second file store on generated trees (decoded tar headers, restored listings, descriptor equality, pushed/materialised names, tampered descriptors) and an independent oracle on the generator's own tree",
+    "level_note": "full at entry-list level; tar/gzip bytes, the digest, filepath.Walk and the kernel file system are modelled, not verified; two known findings (root-mode, duplicate-not-restored-ignorenoname) are reported as KNOWN-FINDING and excluded from the proved statements by name (expected_impl / ignoreNoName = false)",
+    "technique": "machine-checked proof in Coq (tree induction, frame invariant over a path->node map, permutation invariance, induction over push sequences) + translator-regenerated annotation keys + model/implementation correspondence + independent oracle",
+    "explanation": "theorems over all trees/umasks/options about the model of tarDirectory/descriptorFromDir/pushDir/extractTarDirectory/restoreDuplicates; the extracted model and the real file store are run on the same generated scenarios and their tar entry lists, restored listings, descriptor-equality verdicts, materialised names and unpack verdicts are diffed; the oracle compares source and restored trees directly",
 }
